@@ -417,6 +417,7 @@ type Handler interface{ Handle(c *Client) error }
 type Opt func(*Client) error
 type Box[T any] struct{ V T }
 type Num interface{ ~int | ~int64 | ~float64 }
+type Pair[K comparable, V any] struct { K K; V V }
 """ % e["name"]
 
 
@@ -917,3 +918,133 @@ def write_extra_decls(m, root):
         p = root / rel
         p.parent.mkdir(parents=True, exist_ok=True)
         p.write_text(content)
+
+
+# ---------------------------------------------------------------------------------------
+# DenseGen: optional extension of Gen (C14 follow-up).  Same keyword arguments as Gen plus
+#   dense        probability that a type position is filled with a "dense" type: ONE type that
+#                mentions the same package several times, with generic instantiations (1- and
+#                2-argument: Box[T], Pair[K, V]; in-package Pair / Gen) in map key/value, nested
+#                type arguments, func parameters/results, struct fields, channel/slice/array/
+#                pointer elements, anonymous interfaces, and (through constraint()) constraints;
+#                the innermost argument comes from ANOTHER package (foreign, stdlib time, the
+#                source package) or is a type parameter.
+#   name_tuples  probability that the parameters of a method are renamed to a tuple X, X1 /
+#                X1, X / X, X1, X2 where X is an import qualifier (package name), a bare type
+#                name or a type parameter used by the same signature.
+# Gen itself is unchanged (its random stream too); use DenseGen(rng, ...) instead of Gen(rng, ...).
+# ---------------------------------------------------------------------------------------
+class DenseGen(Gen):
+    def __init__(self, rng, *, dense=0.2, name_tuples=0.25, **kw):
+        super().__init__(rng, **kw)
+        self.dense = dense
+        self.name_tuples = name_tuples
+        self.stats = {"dense": 0, "tuples": 0}
+
+    def _has_time(self):
+        return any(s["path"] == "time" for s in self.std)
+
+    def _other(self, tparams, P):
+        """an argument type from another package than P"""
+        c = [basic("string"), basic("int64")]
+        if self._has_time():
+            c += [named("time", "Duration"), named("time", "Time"), named("time", "Duration")]
+        for e in self.ext:
+            if e["path"] != P:
+                c += [named(e["path"], "Client"), named(e["path"], "Key")]
+                if self._has_time():
+                    c.append(named(e["path"], "Box", [named("time", "Duration")]))
+        if P != "":
+            c += [named("", "Local"), named("", "Pair", [named("", "Key"), basic("int")])]
+        if tparams:
+            c += [{"k": "tparam", "n": self.rng.choice(tparams)["n"]}] * 2
+        return self.rng.choice(c)
+
+    def dense_type(self, tparams, depth=0):
+        rng = self.rng
+        P = rng.choice([""] + [e["path"] for e in self.ext] * 2) if self.ext else ""
+        key = named(P, "Key")
+        g2 = lambda k, v: named(P, "Pair", [k, v])
+        g1 = (lambda x: named(P, "Box", [x])) if P else (lambda x: named("", "Pair", [rng.choice([key, basic("string")]), x]))
+        Q = lambda: self._other(tparams, P)
+        self.stats["dense"] += 1
+        k = rng.randrange(12)
+        if k == 0:
+            return {"k": "map", "key": key, "e": g1(Q())}
+        if k == 1:
+            return g1(g1(Q()))
+        if k == 2:
+            return g2(key, g1(Q()))
+        if k == 3:
+            return {"k": "func", "sig": {"params": [{"n": "a", "t": key}, {"n": "b", "t": g1(Q())}], "variadic": False,
+                                         "results": [{"n": "", "t": g2(key, Q())}]}}
+        if k == 4:
+            return {"k": "struct", "fields": [{"n": "A", "t": key, "tag": "", "emb": False}, {"n": "B", "t": g1(Q()), "tag": "", "emb": False},
+                                              {"n": "C", "t": g2(basic("string"), g1(Q())), "tag": 'json:"c"', "emb": False}]}
+        if k == 5:
+            return {"k": "chan", "dir": rng.choice(["both", "send", "recv"]), "e": g2(key, g1(Q()))}
+        if k == 6:
+            return {"k": "slice", "e": g1(g1(Q()))}
+        if k == 7:
+            return {"k": "ptr", "e": g2(basic("string"), g1(Q()))}
+        if k == 8:
+            return {"k": "array", "len": 4, "e": g2(key, g2(key, Q()))}
+        if k == 9:
+            return {"k": "iface", "methods": [{"n": "Do", "sig": {"params": [{"n": "x", "t": key}], "variadic": False,
+                                                                  "results": [{"n": "", "t": g1(Q())}]}}], "embeds": []}
+        if k == 10 and not P:
+            return named("", "Gen", [g1(Q())])
+        return {"k": "map", "key": g2(key, basic("int")), "e": {"k": "slice", "e": g2(key, g1(g1(Q())))}}
+
+    def ty(self, tparams, depth=0):
+        if self.dense and self.allow_generic and depth < self.max_depth and self.rng.random() < self.dense:
+            return self.dense_type(tparams, depth)
+        return super().ty(tparams, depth)
+
+    def constraint(self, prev):
+        if self.dense and self.rng.random() < self.dense:
+            return {"k": "iface", "methods": [{"n": "Conv", "sig": {"params": [], "variadic": False,
+                                                                    "results": [{"n": "", "t": self.dense_type(prev)}]}}], "embeds": []}, False
+        return super().constraint(prev)
+
+    def _pkg_name(self, path):
+        for e in self.ext + self.std:
+            if e["path"] == path:
+                return e["name"]
+        return path.split("/")[-1]
+
+    def sig(self, tparams, depth, max_params=4, max_results=3, allow_variadic=True):
+        s = super().sig(tparams, depth, max_params, max_results, allow_variadic)
+        ps = s["params"]
+        if depth != 0 or not self.name_tuples or len(ps) < 2 or any(p["n"] in ("", "_") for p in ps) or self.rng.random() >= self.name_tuples:
+            return s
+        cands = [self._pkg_name(p) for p in sorted(collect_sig(s, set()))]
+        for p in ps + s["results"]:
+            t = p["t"]
+            if t["k"] == "basic" and t["n"] != "unsafe.Pointer":
+                cands.append(t["n"])
+            elif t["k"] in ("named", "alias") and not t["targs"] and t["pkg"] in ("", None):
+                cands.append(t["n"])
+            elif t["k"] == "tparam":
+                cands.append(t["n"])
+        cands += [tp["n"] for tp in tparams]
+        if not cands:
+            return s
+        X = self.rng.choice(cands)
+        pats = [[X, X + "1"], [X + "1", X]] + ([[X, X + "1", X + "2"]] if len(ps) >= 3 else [])
+        pat = self.rng.choice(pats)
+        pos = sorted(self.rng.sample(range(len(ps)), len(pat)))
+        taken = set(pat)
+        for i, p in enumerate(ps):
+            if i not in pos:
+                while p["n"] in taken:
+                    p["n"] += "Z"
+                taken.add(p["n"])
+        for i, n in zip(pos, pat):
+            ps[i]["n"] = n
+        for r in s["results"]:
+            while r["n"] not in ("", "_") and r["n"] in taken:
+                r["n"] += "Z"
+            taken.add(r["n"])
+        self.stats["tuples"] += 1
+        return s
